@@ -592,6 +592,16 @@ func (w *World) converterArms(fi *FuncInfo) []convArm {
 				if x.Op == token.EQL && isSpecType(x.X) {
 					lits = append(lits, litString(x.Y))
 				}
+			case *ast.CallExpr:
+				// a new predicate over the spec type, asked directly in the condition
+				if depth < 2 {
+					if name := calleeOfCall(info, x); name != "" && w.isNewName(name) {
+						for _, re := range resultExprs(w.Funcs[name], 0) {
+							lits = append(lits, specLitsRec(re, depth+1)...)
+						}
+						return false
+					}
+				}
 			case *ast.Ident:
 				// a boolean local computed once from the spec type (`isNumeric := specType == … || …`)
 				if depth < 2 {
@@ -1082,9 +1092,13 @@ func (w *World) loopSkipProfileLocal(fi *FuncInfo, ownPkg string) map[string]str
 						ks = append(ks, "lit:"+l)
 					}
 					sort.Strings(ks)
-					parts = append(parts, strings.Join(ks, ","))
+					parts = append(parts, ks...)
 				}
-				out[strings.Join(parts, " && ")] = w.pos(x.Pos())
+				// (`if a { if b { continue } }` and `if a && b { continue }` are one skip: the atoms of the
+				// whole conjunction, as a set)
+				parts = dedupSortedPlain(parts)
+				sort.Strings(parts)
+				out[strings.Join(parts, ",")] = w.pos(x.Pos())
 			}
 			return
 		case *ast.BlockStmt:
